@@ -546,7 +546,9 @@ func main() {
 		"~15% invalid ones, reads only when they cannot block), frame sizes 56..1500 biased to 57..256; " +
 		"non-trivial = some packet spans two or more frames or an invalid packet was skipped. " +
 		"CE2E: 1-3 real encoders with distinct streams, frames delivered to one real worker in order / " +
-		"with deletion, duplication, local reordering, shuffles, cleanup ticks, corrupted copies; " +
+		"with deletion, duplication, local reordering, shuffles, cleanup ticks, corrupted copies; every sixth case " +
+		"is a twin-stream case (same session, frame size and packet lengths, 20-bit stream ids that collide in " +
+		"the low 16/15/12/8 bits, frames interleaved position by position with losses); " +
 		"non-trivial = the worker reassembled at least one packet from two or more frames. " +
 		"CRx: mutated genuine frames and random frames; non-trivial = the worker emitted something."
 	r := vgen.NewRand(run.Seed)
@@ -646,12 +648,47 @@ func main() {
 		if mode != 0 && cr.Chance(25, 100) && !forceKnown && !forceEdge {
 			nsnd = cr.Range(2, 3)
 		}
+		// twin streams: two (or three) senders of one session with the same frame size and the
+		// same packet lengths (different contents) whose 20-bit stream ids agree in the low 16
+		// (or low 8, or all but the top 4 ... ) bits; frames interleaved position by position
+		// with losses, so that a frame of one stream is "consecutive" to a pending frame of
+		// another one if the receiver ever mixes the streams up.
+		twins := !forceKnown && !forceEdge && i%6 == 2
+		if twins {
+			nsnd = vgen.Pick(cr, 2, 2, 2, 3)
+		}
 		var ss []*senderRun
 		hung := false
 		base := uint32(cr.U64())
+		// stream ids from the full 20-bit space (upper 12 bits are random and masked by the encoder)
+		delta := vgen.Pick(cr, uint32(1), 7, 0x100, 0x1000, 0x10000, 0x30000, 0x50000, 0x80000, 0xf0000,
+			0x100001, 0x100000)
+		if twins {
+			delta = vgen.Pick(cr, uint32(0x10000), 0x10000, 0x20000, 0x40000, 0x70000, 0xf0000, 0x100, 0x8000, 0x1000)
+		}
+		var twinIntents []intent
+		twinMTU := 0
+		if twins {
+			twinMTU = vgen.Pick(cr, 57, 60, 64, 76, 100)
+			for k := cr.Range(1, 3); k > 0; k-- {
+				n := cr.Range(twinMTU-16+1, 3*(twinMTU-16))
+				twinIntents = append(twinIntents, intent{kind: 0, pkt: make([]byte, n)})
+			}
+		}
 		for k := 0; k < nsnd; k++ {
 			var s *senderRun
-			if forceKnown {
+			if twins {
+				its := make([]intent, len(twinIntents))
+				for j, it := range twinIntents {
+					n := len(it.pkt)
+					if n >= 40 && (k+j)%2 == 1 {
+						its[j] = intent{kind: 0, pkt: mkV6(cr, n)}
+					} else {
+						its[j] = intent{kind: 0, pkt: mkV4(cr, n)}
+					}
+				}
+				s = runSender(twinMTU, sess, base+uint32(k)*delta, its)
+			} else if forceKnown {
 				// witness of the known finding: one packet spanning more than 100 frames
 				n := 40 + 99*41 + cr.Range(2, 60)
 				s = runSender(57, sess, base, []intent{{kind: 0, pkt: mkV4(cr, 30)},
@@ -660,7 +697,7 @@ func main() {
 				s = runSender(57, sess, base, []intent{{kind: 0, pkt: mkV4(cr, 40+99*41)},
 					{kind: 0, pkt: mkV6(cr, 60)}})
 			} else {
-				s = mkSender(cr, sess, base+uint32(k)*vgen.Pick(cr, uint32(1), 1, 1, 7, 0x100001, 0x100000), 7)
+				s = mkSender(cr, sess, base+uint32(k)*delta, 7)
 			}
 			hung = hung || s.hung
 			ss = append(ss, s)
@@ -673,6 +710,26 @@ func main() {
 			frames = append(frames, s.frames())
 		}
 		plan := genPlan(cr, frames, mode)
+		if twins {
+			mode = 7
+			plan = nil
+			maxn := 0
+			for _, fs := range frames {
+				if len(fs) > maxn {
+					maxn = len(fs)
+				}
+			}
+			for j := 0; j < maxn; j++ {
+				// which senders' frame j get through, and in which order
+				order := cr.Intn(nsnd)
+				for t := 0; t < nsnd; t++ {
+					k := (order + t) % nsnd
+					if j < len(frames[k]) && cr.Chance(55, 100) {
+						plan = append(plan, dop{s: k, i: j})
+					}
+				}
+			}
+		}
 		desc := map[string]any{"mode": mode, "plan": descPlan(plan)}
 		for k, s := range ss {
 			desc[fmt.Sprintf("sender%d", k)] = map[string]any{"mtu": s.mtu, "stream": s.stream,
